@@ -28,6 +28,8 @@ type ConcScenario struct {
 	Ctor   CacheCtor `json:"ctor"`
 	Epoch  int64     `json:"epoch"`
 	CBKind int       `json:"cb_kind"` // 0 none, 1 recording, 2 recording + re-entrant
+	// TwoContainers (C14 only): odd tasks work on a second container of the same kind
+	TwoContainers bool `json:"two_containers,omitempty"`
 
 	Prefill     int `json:"prefill"`      // keys prefillBase.. stored in set-up
 	PrefillKeep int `json:"prefill_keep"` // after filling, delete all but this many (-1: keep all)
@@ -193,7 +195,7 @@ func RunConc(sc *ConcScenario, want Want) *ConcResult {
 	noteKeys := func(recs []*Rec) {
 		for _, r := range recs {
 			switch r.Op.K {
-			case MClear, CClear, MRange, CRange, CItems, MSize, CCount, XPrefillCount, CDeleteExpired, XAdvance, XPass, XTick,
+			case MClear, CClear, MRange, CRange, CItems, MSize, CCount, XPrefillCount, CDeleteExpired, XAdvance, XPass, XTick, XGC,
 				CSetDefaultExpiration, CDefaultExpiration, CSetCallback, XBulkInsert, XBulkDelete:
 			default:
 				if !isPrefillKey(r.Op.Key) {
@@ -342,7 +344,7 @@ func RunConc(sc *ConcScenario, want Want) *ConcResult {
 		if out != simrt.OutOK {
 			res.finishOutcome(sim, pi, sc)
 			if want.ReadBound {
-				res.checkReaders(w.recs[recStart:], pi, sc, tasks, true)
+				res.checkReaders(w.recs[recStart:], pi, sc, tasks, true, len(state)+prefillNow(prePresent, prefillPresent))
 			}
 			res.collect(sim, w)
 			return res
@@ -471,7 +473,7 @@ func RunConc(sc *ConcScenario, want Want) *ConcResult {
 
 		// ---- readers never wait (C16) ----
 		if want.ReadBound {
-			res.checkReaders(phaseRecs, pi, sc, tasks, false)
+			res.checkReaders(phaseRecs, pi, sc, tasks, false, len(state)+prefillNow(prePresent, prefillPresent))
 		}
 
 		if victimStuck {
@@ -579,9 +581,16 @@ func RunConc(sc *ConcScenario, want Want) *ConcResult {
 	return res
 }
 
+func prefillNow(present bool, n int) int {
+	if present {
+		return n
+	}
+	return 0
+}
+
 func keyedOp(k OpKind) bool {
 	switch k {
-	case MClear, CClear, MRange, CRange, CItems, MSize, CCount, XPrefillCount, CDeleteExpired, XAdvance, XPass, XTick,
+	case MClear, CClear, MRange, CRange, CItems, MSize, CCount, XPrefillCount, CDeleteExpired, XAdvance, XPass, XTick, XGC,
 		CSetDefaultExpiration, CDefaultExpiration, CSetCallback, XBulkInsert, XBulkDelete:
 		return false
 	}
@@ -590,7 +599,7 @@ func keyedOp(k OpKind) bool {
 
 func skipInLin(k OpKind) bool {
 	switch k {
-	case MSize, CCount, XAdvance, XTick, CDeleteExpired, XPass, CDefaultExpiration, CSetCallback, CSetDefaultExpiration, XBulkInsert, XBulkDelete, MRange, CRange, CItems:
+	case MSize, CCount, XAdvance, XTick, XGC, CDeleteExpired, XPass, CDefaultExpiration, CSetCallback, CSetDefaultExpiration, XBulkInsert, XBulkDelete, MRange, CRange, CItems:
 		return true
 	}
 	return false
@@ -1008,7 +1017,7 @@ func qualifiesAsRead(k OpKind) bool {
 	return false
 }
 
-func (res *ConcResult) checkReaders(recs []*Rec, phase int, sc *ConcScenario, tasks []*simrt.Task, aborted bool) {
+func (res *ConcResult) checkReaders(recs []*Rec, phase int, sc *ConcScenario, tasks []*simrt.Task, aborted bool, quiescentCount int) {
 	ph := &sc.Phases[phase]
 	if ph.Stall == nil || ph.Stall.Resume {
 		return
@@ -1037,6 +1046,35 @@ func (res *ConcResult) checkReaders(recs []*Rec, phase int, sc *ConcScenario, ta
 		read := qualifiesAsRead(r.Op.K) || ((r.Op.K == MLoadOrStore || r.Op.K == MLoadOrCompute) && r.Op.N == 1)
 		if !read {
 			continue
+		}
+		if (r.Op.K == MSize || r.Op.K == CCount) && !r.Pending && len(ph.Optional) == 0 && quiescentCount >= 0 {
+			// "the last completely written value": with the victim as the only
+			// writer the count can differ from the quiescent one only by what the
+			// victim's own calls may have added or removed so far
+			lo, hi := quiescentCount, quiescentCount
+			for _, op := range ph.Tasks[ph.Stall.Task] {
+				switch op.K {
+				case MClear, CClear:
+					lo = 0
+				case MStore, MLoadAndStore, MLoadOrCompute, MLoadOrStore, CSet, CSetDefault, CSetForever, CGetAndSet, CGetOrSet, CGetOrCompute:
+					if !(op.Park && ph.Stall.AtStep == 0) {
+						hi++
+					}
+				case MCompute, CCompute:
+					if !(op.Park && ph.Stall.AtStep == 0) {
+						hi++
+						lo--
+					}
+				case MDelete, MLoadAndDelete, CDelete, CGetAndDelete:
+					lo--
+				}
+			}
+			if lo < 0 {
+				lo = 0
+			}
+			if r.N < lo || r.N > hi {
+				res.add("read-count", phase, "Size/Count returned %d while the only writer was stalled; the completely written entries number %d (admissible %d..%d): %s", r.N, quiescentCount, lo, hi, r)
+			}
 		}
 		res.probe("reads_behind_stall", 1)
 		if r.Pending {
